@@ -291,6 +291,7 @@ prop("C18", "TestC18", "exploration",
 q, t = tiers(4, 120, 16, 600, floor_q=100, floor_t=1000, q_timeout=600, t_timeout=3000)
 t["race"] = True
 t["checks"] = 250
+q["race_arm"] = dict(shards=2, checks=40)
 prop("C12", "TestC12", "exploration",
      "For every command (sam toMultiAlign with/without --wrap, toPairAlign directory and -o stdout, sam variants and variants with/without --aggregate, snps "
      "with/without --aggregate, closest, closest -n with/without --table, updown list, updown topranking list/--table) an input with >= 8 records is generated "
